@@ -160,13 +160,19 @@ fn gen_kind(r: &mut Rng, f: &mut Forest, k: K, mode: SizeMode, op: &str) -> Id {
         K::Any => match r.below(5) {
             0 => f.nil(),
             1 => {
-                let b = gen_atom(r, 40);
+                // per-byte charges of tree-shaped operands only show on long atoms
+                let b = match mode {
+                    SizeMode::Small => gen_atom(r, 40),
+                    SizeMode::Medium => vec![r.u8(); *r.pick(&[1023usize, 1024, 1025, 2048, 5000])],
+                    _ => vec![r.u8(); *r.pick(&[100_000usize, 600_000, 1_100_000])],
+                };
                 f.atom(&b)
             }
             _ => {
                 let sh = *r.pick(SHAPES);
                 let size = if mode == SizeMode::Small { r.usize(12) + 1 } else { r.usize(200) + 1 };
-                gen_tree(r, f, sh, size, 40)
+                let max_atom = if mode == SizeMode::Small { 40 } else { 3000 };
+                gen_tree(r, f, sh, size, max_atom)
             }
         },
         K::Pair => {
